@@ -46,7 +46,7 @@ package manifest
 //@   modifies fresh(mem:string)
 //@   ensures err == nil ==> b.Size >= 0
 
-//@ func parseFileStreamSegment property C10,C17
+//@ func parseFileStreamSegment trustedframe property C10,C17
 //@   modifies fresh(mem:string)
 
 //@ func parseManifestStream property C10,C17 arith checked
